@@ -1135,7 +1135,7 @@ func tagList(tags map[string]bool, order []string) string {
 	return strings.Join(tl, "+")
 }
 
-var e2eTags = []string{"cfggroup", "warn30", "colsets", "widehdr", "numtie", "zero", "compare", "nodelta", "missing", "tables", "levels2", "levels3", "levels4", "levels5", "multirow", "units", "warn"}
+var e2eTags = []string{"emptykey", "cfggroup", "warn30", "colsets", "widehdr", "numtie", "zero", "compare", "nodelta", "missing", "tables", "levels2", "levels3", "levels4", "levels5", "multirow", "units", "warn"}
 
 func runScenario(sc scenario) {
 	myid := id
@@ -1249,6 +1249,18 @@ func e2eCases(r *hx.Rand) {
 		runScenario(scenario{[]string{"old=" + filepath.Join(dir, "exact-a.txt"), "new=" + filepath.Join(dir, "exact-b.txt")}, ".fullname", ".file",
 			map[string]bool{"compare": true, "warn30": true}})
 	}
+	// C16-S: a table key whose value is EMPTY for some tables: a file key present in one file only
+	// (both file orders), a sub-name table key absent from some names
+	os.WriteFile(filepath.Join(dir, "n1.txt"), []byte("note: first\nBenchmarkA-8 1 1 ns/op\nBenchmarkB-8 1 2 ns/op\n"), 0o666)
+	os.WriteFile(filepath.Join(dir, "n2.txt"), []byte("BenchmarkA-8 1 3 ns/op\nBenchmarkB-8 1 4 ns/op\n"), 0o666)
+	runScenario(scenario{[]string{filepath.Join(dir, "n1.txt"), filepath.Join(dir, "n2.txt")}, ".fullname", ".file", map[string]bool{"emptykey": true, "tables": true}})
+	runScenario(scenario{[]string{filepath.Join(dir, "n2.txt"), filepath.Join(dir, "n1.txt")}, ".fullname", ".file", map[string]bool{"emptykey": true, "tables": true}})
+	os.WriteFile(filepath.Join(dir, "k.txt"), []byte("BenchmarkA/k=1-8 1 1 ns/op\nBenchmarkA/k=2-8 1 2 ns/op\nBenchmarkB-8 1 3 ns/op\nBenchmarkA/k=1-8 1 2 ns/op\n"), 0o666)
+	curTableBy = "/k"
+	runScenario(scenario{[]string{filepath.Join(dir, "k.txt")}, ".name", ".file", map[string]bool{"emptykey": true, "tables": true}})
+	os.WriteFile(filepath.Join(dir, "k2.txt"), []byte("BenchmarkB-8 1 3 ns/op\nBenchmarkA/k=1-8 1 1 ns/op\nBenchmarkA/k=2-8 1 2 ns/op\n"), 0o666)
+	runScenario(scenario{[]string{filepath.Join(dir, "k2.txt")}, ".name", ".file", map[string]bool{"emptykey": true, "tables": true}})
+	curTableBy = ".config"
 	// C10-R shape: a row with a zero centre next to two magnitudes of different prefixes (>= 3 columns)
 	os.WriteFile(filepath.Join(dir, "s0.txt"), []byte("BenchmarkX-8 1 0 B/op 0 ns/op\nBenchmarkY-8 1 7 B/op 3 ns/op\n"), 0o666)
 	os.WriteFile(filepath.Join(dir, "s1.txt"), []byte("BenchmarkX-8 1 5 B/op 12 ns/op\nBenchmarkY-8 1 9 B/op 4 ns/op\n"), 0o666)
